@@ -266,7 +266,11 @@ func (gb *gcpBalancer) initializeConfig(cfg *GCPBalancerConfig) {
 
 func (gb *gcpBalancer) enforceMinSize() {
 	for len(gb.scRefs) < int(gb.cfg.GetChannelPool().GetMinSize()) {
-		gb.addSubConn()
+		if !gb.addSubConn() {
+			// Do not retry forever (while holding the mutex) if SubConns cannot
+			// be created now. The next resolver update will try again.
+			return
+		}
 	}
 }
 
@@ -287,7 +291,8 @@ func (gb *gcpBalancer) UpdateClientConnState(ccs balancer.ClientConnState) error
 	}
 
 	if len(gb.scRefs) == 0 {
-		gb.newSubConn()
+		// The mutex is already held here, so newSubConn() cannot be used.
+		gb.enforceMinSize()
 		return nil
 	}
 
@@ -329,15 +334,16 @@ func (gb *gcpBalancer) newSubConn() {
 }
 
 // addSubConn creates a new SubConn using cc.NewSubConn and initialize the subConnRef.
+// Returns false if the SubConn could not be created.
 // Must be called holding the mutex lock.
-func (gb *gcpBalancer) addSubConn() {
+func (gb *gcpBalancer) addSubConn() bool {
 	sc, err := gb.cc.NewSubConn(
 		gb.addrs,
 		balancer.NewSubConnOptions{HealthCheckEnabled: healthCheckEnabled},
 	)
 	if err != nil {
 		gb.log.Errorf("failed to NewSubConn: %v", err)
-		return
+		return false
 	}
 	gb.scRefs[sc] = &subConnRef{
 		subConn:     sc,
@@ -347,6 +353,7 @@ func (gb *gcpBalancer) addSubConn() {
 	gb.scStates[sc] = connectivity.Idle
 	gb.scRefList = append(gb.scRefList, gb.scRefs[sc])
 	sc.Connect()
+	return true
 }
 
 // getReadySubConnRef returns a subConnRef and a bool. The bool indicates whether
